@@ -492,7 +492,7 @@ func dumpMinusOne(c *Ctx) {
 func init() {
 	register(&Rule{
 		ID:    "C20.minusone",
-		Props: []string{"C20", "C08"},
+		Props: []string{"C20", "C08", "C13"},
 		Doc:   "no index below zero from `count - k`: every index, slice bound or Get/GetXY/…N argument in geom and rtree that contains a term `X - k` (k a positive constant, X not) is evaluated only where X >= k is established — by the guards in force (comparisons with constants, with lengths, with loop counters; `len != 0`; the receiver's IsEmpty() known false for its own Length()), by construction (a counter that starts at >= k and only grows, a sum or product of such values, Dimension() >= 2), or, when X is a parameter of a helper introduced after the baseline, at every call site of that helper. The sites of the unchanged tree that rest on an invariant no guard states are a reviewed table (function, reason); a site in a reviewed function's new helper is judged like any other",
 		Floor: 12,
 		Run:   runC20MinusOne,
@@ -2608,6 +2608,608 @@ func init() {
 				}
 			}
 			c.Triv(token.NoPos, "-", "summary", fmt.Sprintf("%d loops over filtered lists", n))
+		},
+	})
+}
+
+// ---------------------------------------------------------------------------
+// C01.renodeline
+// ---------------------------------------------------------------------------
+
+func init() {
+	register(&Rule{
+		ID:    "C01.renodeline",
+		Props: []string{"C01", "C02"},
+		Doc:   "re-noding keeps every control point of a line, the last one included: reNodeLineString interpreted on all sequences of 0..4 points over two values (so that repeated points occur at the start, in the middle and at the END) with a cut function that adds no cuts builds an XY sequence that holds the start point of every non-degenerate segment, in order, followed by the final point of the input — a final point written only from inside the per-segment loop is lost when the last segment has zero length (a ring that repeats its closing vertex stays unclosed)",
+		Floor: 1,
+		Run: func(c *Ctx) {
+			f := c.P.Func("geom.reNodeLineString")
+			if f == nil {
+				c.Errorf("anchor geom.reNodeLineString does not resolve")
+				return
+			}
+			inl := func(g *ssa.Function) bool {
+				switch FuncName(g) {
+				case "geom.(Sequence).Length", "geom.(Sequence).GetXY", "geom.(Sequence).Get", "geom.(CoordinatesType).Dimension", "geom.getLine", "geom.(LineString).Coordinates", "geom.uniquifyGroupedXYs":
+					return true
+				}
+				return false
+			}
+			problem, undec := "", ""
+			models := 0
+			var rec func(pts []int, n int)
+			rec = func(pts []int, n int) {
+				if problem != "" || undec != "" {
+					return
+				}
+				if len(pts) < n {
+					for v := 0; v < 2; v++ {
+						rec(append(pts, v), n)
+					}
+					return
+				}
+				models++
+				m := &Model{Num: map[string]float64{"$0.seq.ctype": 0}, Bool: map[string]bool{}, Missing: map[string]bool{}}
+				it := &k4interp{p: c.P, m: m, mem: map[string]k4val{}, inline: inl}
+				it.mem["$0.seq.floats"] = k4val{kind: 8, s: "F", ln: 2 * n, cp: 2 * n}
+				for i, p := range pts {
+					it.mem[fmt.Sprintf("F[%d]", 2*i)] = k4val{kind: 2, f: float64(p)}
+					it.mem[fmt.Sprintf("F[%d]", 2*i+1)] = k4val{kind: 2, f: float64(10 * p)}
+				}
+				// the cut function adds nothing: it returns the (emptied) slice it is given
+				it.mem["cuts()"] = k4val{kind: 8, s: "CUTS", ln: 0, cp: 0}
+				it.opaqueCall = func(args []k4val) (string, bool) {
+					if len(args) == 2 {
+						return "cuts()", true
+					}
+					return "", false
+				}
+				var got []float64
+				built := false
+				it.onOpaque = func(name string, args []k4val) {
+					if name == "geom.NewSequence" && len(args) == 2 {
+						built = true
+						got = nil
+						if args[0].kind == 8 {
+							for i := 0; i < args[0].ln; i++ {
+								got = append(got, it.mem[fmt.Sprintf("%s[%d]", args[0].s, args[0].off+i)].f)
+							}
+						}
+					}
+				}
+				if _, err := it.call(f, []k4val{{kind: 3, s: "$0"}, {kind: 3, s: "$1"}}, nil); err != nil || !built {
+					undec = fmt.Sprintf("points %v: %v (sequence built: %v) %s", pts, err, built, trunc(missingList(m)))
+					return
+				}
+				var want []float64
+				for i := 1; i < n; i++ {
+					if pts[i-1] != pts[i] {
+						want = append(want, float64(pts[i-1]), float64(10*pts[i-1]))
+					}
+				}
+				if n > 0 {
+					want = append(want, float64(pts[n-1]), float64(10*pts[n-1]))
+				}
+				if fmt.Sprint(got) != fmt.Sprint(want) {
+					problem = fmt.Sprintf("for the points %v (X values; no cuts) the re-noded coordinates are %v, expected %v: the start of every non-degenerate segment, then the final point", pts, got, want)
+				}
+			}
+			for n := 0; n <= 4; n++ {
+				rec(nil, n)
+			}
+			reportK4(c, f, "control points kept by re-noding", undec, problem, fmt.Sprintf("segment starts then the final point (%d sequences)", models))
+		},
+	})
+}
+
+func init() {
+	register(&Rule{
+		ID:    "C20.firstonly",
+		Props: []string{"C20", "C06", "C08", "C03"},
+		Doc:   "a loop over a slice or a counter looks at more than its first element: no `for i := …` / `for … := range slice` loop in geom, rtree or carto has a body that leaves on every path (return or break) so that it can never come round again — `for _, ring := range rings { return check(ring) }` checks the first ring only (the 2D/3D decision and the length checks of a GeoJSON polygon then ignore every ring after the first). Ranging over a map to pick any one entry is a different idiom and not concerned",
+		Floor: 100,
+		Run: func(c *Ctx) {
+			for _, f := range c.P.Funcs {
+				if pk := pkgOf(f); (pk != "geom" && pk != "rtree" && pk != "carto") || len(f.Blocks) == 0 {
+					continue
+				}
+				inLoop := map[*ssa.BasicBlock]bool{}
+				for _, h := range f.Blocks {
+					for b := range naturalLoop(h) {
+						inLoop[b] = true
+					}
+				}
+				k := 0
+				for _, b := range f.Blocks {
+					if b.Comment != "rangeindex.body" && b.Comment != "for.body" {
+						continue
+					}
+					k++
+					construct := fmt.Sprintf("loop body #%d", k)
+					c.Check(inLoop[b], firstPos(b), FuncName(f), construct, "can be entered again", "the body of this loop leaves the loop on every path (it returns or breaks unconditionally), so only the first element is ever looked at and the others are silently ignored")
+				}
+			}
+		},
+	})
+}
+
+// ---------------------------------------------------------------------------
+// C15.pointflags
+// ---------------------------------------------------------------------------
+
+func init() {
+	register(&Rule{
+		ID:    "C15.pointflags",
+		Props: []string{"C15", "C02", "C01"},
+		Doc:   "a point member only ADDS to the labels of the vertex it falls on: addPoint interpreted for both operands with a non-empty point writes exactly two things, src[operand] = true and locations[operand].interior = true, on the vertex record looked up for its XY — in particular it never assigns the whole location (which would erase a boundary flag set by a line member of the same operand that ends there: the end point of a line would stop being boundary as soon as a point coincides with it) and never touches the other operand's labels; for an empty point it writes nothing",
+		Floor: 1,
+		Run: func(c *Ctx) {
+			f := c.P.Func("geom.(*doublyConnectedEdgeList).addPoint")
+			if f == nil {
+				c.Errorf("anchor geom.(*doublyConnectedEdgeList).addPoint does not resolve")
+				return
+			}
+			problem, undec := "", ""
+			for op := 0; op < 2 && problem == "" && undec == ""; op++ {
+				for _, nonEmpty := range []bool{true, false} {
+					m := &Model{Num: map[string]float64{}, Bool: map[string]bool{}, Missing: map[string]bool{}}
+					it := &k4interp{p: c.P, m: m, mem: map[string]k4val{}}
+					it.answer = func(key string, isBool bool) (k4val, bool) {
+						if isBool && strings.HasSuffix(key, ".XY($1)#1") {
+							return k4val{kind: 1, b: nonEmpty}, true
+						}
+						if isBool && strings.HasPrefix(key, "lookup($0.vertices,") && strings.HasSuffix(key, "#ok") {
+							return k4val{kind: 1, b: true}, true // the vertex exists (all control points are DCEL vertices)
+						}
+						if !isBool && strings.HasSuffix(key, ".XY($1)#0.X") {
+							return k4val{kind: 2, f: 3}, true
+						}
+						if !isBool && strings.HasSuffix(key, ".XY($1)#0.Y") {
+							return k4val{kind: 2, f: 4}, true
+						}
+						return k4val{}, false
+					}
+					if _, err := it.call(f, []k4val{{kind: 3, s: "$0"}, {kind: 3, s: "$1"}, {kind: 2, f: float64(op)}}, nil); err != nil {
+						undec = fmt.Sprintf("%v %s", err, trunc(missingList(m)))
+						break
+					}
+					var src, interior int
+					for _, e := range it.effects {
+						switch {
+						case strings.HasSuffix(e, fmt.Sprintf(".src[%d] := true", op)):
+							src++
+						case strings.HasSuffix(e, fmt.Sprintf(".locations[%d].interior := true", op)):
+							interior++
+						default:
+							problem = fmt.Sprintf("operand %d: addPoint performs the write `%s`; a point member may only set src[operand] and locations[operand].interior to true (anything else erases or alters labels other members have set on that vertex)", op, trunc(e))
+						}
+					}
+					if problem == "" && nonEmpty && (src != 1 || interior != 1) {
+						problem = fmt.Sprintf("operand %d: for a non-empty point addPoint sets src %d time(s) and interior %d time(s), expected once each", op, src, interior)
+					}
+					if problem == "" && !nonEmpty && len(it.effects) > 0 {
+						problem = fmt.Sprintf("operand %d: for an EMPTY point addPoint still writes %v", op, it.effects)
+					}
+				}
+			}
+			reportK4(c, f, "labels written for a point member", undec, problem, "src and interior of its own operand, nothing else; nothing for an empty point")
+		},
+	})
+}
+
+// ---------------------------------------------------------------------------
+// C07.countguard
+// ---------------------------------------------------------------------------
+
+func init() {
+	register(&Rule{
+		ID:    "C07.countguard",
+		Props: []string{"C07", "C08"},
+		Doc:   "a TWKB count is only refused when the remaining input really cannot hold it: in the methods of twkbParser, a comparison of a value with the remaining input (len(p.twkb) - p.pos) scaled by a per-element size — remaining/size, or count*size — uses a size that is not above the smallest encoding of one element: p.dimensions bytes for a point (parsePointArray: one byte per ordinate at least), one byte for everything else (an ID, and an EMPTY LineString, Polygon, ring or collection member is a single zero count byte). A guard `numLineStrings > remaining/p.dimensions` refuses the encoder's own output for a MultiLineString made mostly of empty members",
+		Floor: 1,
+		Run: func(c *Ctx) {
+			remaining := func(v ssa.Value) bool {
+				bo, ok := stripConv(v).(*ssa.BinOp)
+				if !ok || bo.Op != token.SUB {
+					return false
+				}
+				call, ok := stripConv(bo.X).(*ssa.Call)
+				if !ok {
+					return false
+				}
+				b, ok := call.Call.Value.(*ssa.Builtin)
+				if !ok || b.Name() != "len" {
+					return false
+				}
+				_, fl, _, isField := fieldLoad(call.Call.Args[0])
+				return isField && fl == "twkb"
+			}
+			isDimensions := func(v ssa.Value) bool {
+				_, fl, _, ok := fieldLoad(stripConv(v))
+				return ok && fl == "dimensions"
+			}
+			n := 0
+			for _, f0 := range c.P.methodsOf("geom", "twkbParser") {
+				for _, f := range withNewHelpers(f0) {
+					if f != f0 && f.Signature.Recv() != nil && namedName(f.Signature.Recv().Type()) == "twkbParser" {
+						continue // a method: visited on its own
+					}
+					fn := FuncName(f)
+					perPoint := strings.HasSuffix(FuncName(f0), ").parsePointArray")
+					eachInstr(f, func(in ssa.Instruction) {
+						bo, ok := in.(*ssa.BinOp)
+						if !ok {
+							return
+						}
+						switch bo.Op {
+						case token.LSS, token.GTR, token.LEQ, token.GEQ:
+						default:
+							return
+						}
+						// remaining / size on one side, or (count * size) against remaining
+						var size ssa.Value
+						for _, side := range []ssa.Value{bo.X, bo.Y} {
+							if q, ok := stripConv(side).(*ssa.BinOp); ok && q.Op == token.QUO && remaining(q.X) {
+								size = q.Y
+							}
+						}
+						if size == nil && (remaining(bo.X) || remaining(bo.Y)) {
+							other := bo.X
+							if remaining(bo.X) {
+								other = bo.Y
+							}
+							if m, ok := stripConv(other).(*ssa.BinOp); ok && m.Op == token.MUL {
+								if _, isC := stripConv(m.Y).(*ssa.Const); isC || isDimensions(m.Y) {
+									size = m.Y
+								} else {
+									size = m.X
+								}
+							}
+						}
+						if size == nil {
+							return
+						}
+						n++
+						ss, _ := accessPath(stripConv(size))
+						construct := "count guard scaled by " + trunc(ss)
+						k, isC := constInt(stripConv(size))
+						switch {
+						case isC && k == 1:
+							c.OK(bo.Pos(), fn, construct, "one byte per element")
+						case isDimensions(size) && perPoint:
+							c.OK(bo.Pos(), fn, construct, "one byte per ordinate of a point")
+						default:
+							c.Bad(bo.Pos(), fn, construct, "the count is refused unless the remaining input holds "+trunc(ss)+" bytes per element, but an element here can be a single byte (an EMPTY member is one zero count): correctly encoded collections with empty members are rejected as truncated")
+						}
+					})
+				}
+			}
+			if n < 1 {
+				c.Errorf("no scaled count guard found in the TWKB parser (expected parsePointArray's)")
+			}
+		},
+	})
+}
+
+func dumpFirstIndex(c *Ctx) {
+	for _, f := range c.P.Funcs {
+		if pk := pkgOf(f); pk != "geom" {
+			continue
+		}
+		eachInstr(f, func(in ssa.Instruction) {
+			ia, ok := in.(*ssa.IndexAddr)
+			if !ok {
+				return
+			}
+			k, isC := constInt(ia.Index)
+			if !isC {
+				return
+			}
+			if _, isSl := ia.X.Type().Underlying().(*types.Slice); !isSl {
+				return
+			}
+			tn, fl, _, isField := fieldLoad(ia.X)
+			if !isField || !geomTypeNames[tn] {
+				return
+			}
+			call, _ := lenCallOf(ia.X, f)
+			l, has := int64(0), false
+			if call != nil {
+				l, has = c.lowerBound(ia, call, 0)
+			}
+			eg := emptyGuardedAt(ia)
+			fmt.Printf("%v\t%s\t%s\t%s.%s[%d]\tlb=%d(%v) emptyGuard=%v\n", (has && l > k) || eg, c.P.Pos(ia.Pos()), FuncName(f), tn, fl, k, l, has, eg)
+		})
+	}
+}
+
+// lenCallOf: some len(x) call in f on the same slice value as v (for guard lookup).
+func lenCallOf(v ssa.Value, f *ssa.Function) (ssa.Value, bool) {
+	var out ssa.Value
+	eachInstr(f, func(in ssa.Instruction) {
+		call, ok := in.(*ssa.Call)
+		if !ok || out != nil {
+			return
+		}
+		if b, ok := call.Call.Value.(*ssa.Builtin); ok && b.Name() == "len" {
+			if call.Call.Args[0] == v || sameValue(call.Call.Args[0], v) {
+				out = call
+			}
+		}
+	})
+	return out, out != nil
+}
+
+func init() {
+	register(&Rule{
+		ID:    "C20.firstindex",
+		Props: []string{"C20", "C14", "C17"},
+		Doc:   "the first ring / member is only taken from a non-empty geometry: every constant index into a slice field of one of the geometry types (p.rings[0], m.polys[0], …) in geom is evaluated only where the slice is known to be long enough — a guard on its len, or the owner's IsEmpty() known false (an EMPTY Polygon has no rings; `orientedRings[0] = orient(p.rings[0])` panics for every collection with an empty Polygon member that reaches it)",
+		Floor: 1,
+		Run: func(c *Ctx) {
+			for _, f := range c.P.Funcs {
+				if pkgOf(f) != "geom" {
+					continue
+				}
+				k := 0
+				eachInstr(f, func(in ssa.Instruction) {
+					ia, ok := in.(*ssa.IndexAddr)
+					if !ok {
+						return
+					}
+					idx, isC := constInt(ia.Index)
+					if !isC {
+						return
+					}
+					if _, isSl := ia.X.Type().Underlying().(*types.Slice); !isSl {
+						return
+					}
+					tn, fl, _, isField := fieldLoad(ia.X)
+					if !isField || !geomTypeNames[tn] {
+						return
+					}
+					k++
+					okLen := emptyGuardedAt(ia)
+					if call, found := lenCallOf(ia.X, f); found && !okLen {
+						if l, has := c.lowerBound(ia, call, 0); has && l > idx {
+							okLen = true
+						}
+					}
+					// the owner's own emptiness, whatever value it is held in
+					if !okLen {
+						for _, g0 := range guardsAt(ia) {
+							for _, g := range expandGuardDeep(g0) {
+								if gc, ok := g.Cond.(*ssa.Call); ok && !g.Truth {
+									if cal := staticCallee(gc); cal != nil && cal.Name() == "IsEmpty" && len(gc.Call.Args) == 1 && namedName(gc.Call.Args[0].Type()) == tn {
+										okLen = true
+									}
+								}
+							}
+						}
+					}
+					c.Check(okLen, ia.Pos(), FuncName(f), fmt.Sprintf("%s.%s[%d] #%d", tn, fl, idx, k), "the slice is known to be long enough here", fmt.Sprintf("element %d of %s.%s is taken without anything establishing that it exists: for an EMPTY %s the slice is empty and the access panics", idx, tn, fl, tn))
+				})
+			}
+		},
+	})
+}
+
+// ---------------------------------------------------------------------------
+// C16.transformseq
+// ---------------------------------------------------------------------------
+
+func init() {
+	register(&Rule{
+		ID:    "C16.transformseq",
+		Props: []string{"C16", "C17"},
+		Doc:   "a coordinate transform touches X and Y only, point by point: transformSequence interpreted for the four coordinates types on a closed three-point sequence (first and last point share X,Y but carry different Z and M) and on an open one builds a sequence of the same type in which point i is (fn(x_i, y_i), z_i, m_i) — every point keeps its OWN Z and M, the closing vertex of a ring included (re-using the transformed first point for the last one gives it the first point's Z/M)",
+		Floor: 1,
+		Run: func(c *Ctx) {
+			f := c.P.Func("geom.transformSequence")
+			if f == nil {
+				c.Errorf("anchor geom.transformSequence does not resolve")
+				return
+			}
+			inl := func(g *ssa.Function) bool {
+				switch FuncName(g) {
+				case "geom.(Sequence).Length", "geom.(Sequence).GetXY", "geom.(Sequence).Get", "geom.(CoordinatesType).Dimension", "geom.(Sequence).CoordinatesType", "geom.(CoordinatesType).Is3D", "geom.(CoordinatesType).IsMeasured":
+					return true
+				}
+				return false
+			}
+			problem, undec := "", ""
+			models := 0
+			for ct := 0; ct < 4 && problem == "" && undec == ""; ct++ {
+				for _, closed := range []bool{true, false} {
+					models++
+					xs := [][2]float64{{1, 2}, {3, 4}, {1, 2}}
+					if !closed {
+						xs[2] = [2]float64{5, 6}
+					}
+					zs := []float64{11, 12, 13}
+					ms := []float64{21, 22, 23}
+					stride := 2
+					if ct == 1 || ct == 2 {
+						stride = 3
+					}
+					if ct == 3 {
+						stride = 4
+					}
+					m := &Model{Num: map[string]float64{"$0.ctype": float64(ct)}, Bool: map[string]bool{}, Missing: map[string]bool{}}
+					it := &k4interp{p: c.P, m: m, mem: map[string]k4val{}, inline: inl}
+					it.mem["$0.floats"] = k4val{kind: 8, s: "F", ln: 3 * stride, cp: 3 * stride}
+					var want []float64
+					for i := 0; i < 3; i++ {
+						pt := []float64{xs[i][0], xs[i][1]}
+						wpt := []float64{100 + xs[i][0], 200 + xs[i][1]}
+						if ct == 1 || ct == 3 {
+							pt = append(pt, zs[i])
+							wpt = append(wpt, zs[i])
+						}
+						if ct == 2 || ct == 3 {
+							pt = append(pt, ms[i])
+							wpt = append(wpt, ms[i])
+						}
+						for j, v := range pt {
+							it.mem[fmt.Sprintf("F[%d]", i*stride+j)] = k4val{kind: 2, f: v}
+						}
+						want = append(want, wpt...)
+					}
+					it.opaqueCall = func(args []k4val) (string, bool) {
+						if len(args) == 1 && args[0].kind == 3 {
+							x, e1 := it.lookup(args[0].s+".X", nil0)
+							y, e2 := it.lookup(args[0].s+".Y", nil0)
+							if e1 == nil && e2 == nil {
+								return fmt.Sprintf("fn(%v,%v)", x.f, y.f), true
+							}
+						}
+						return "", false
+					}
+					it.answer = func(key string, isBool bool) (k4val, bool) {
+						var x, y float64
+						if !isBool && strings.HasPrefix(key, "fn(") {
+							if n, _ := fmt.Sscanf(key, "fn(%g,%g)", &x, &y); n == 2 {
+								switch {
+								case strings.HasSuffix(key, ").X"):
+									return k4val{kind: 2, f: 100 + x}, true
+								case strings.HasSuffix(key, ").Y"):
+									return k4val{kind: 2, f: 200 + y}, true
+								}
+							}
+						}
+						return k4val{}, false
+					}
+					var got []float64
+					gotCT := -1.0
+					it.onOpaque = func(name string, args []k4val) {
+						if name == "geom.NewSequence" && len(args) == 2 && args[0].kind == 8 {
+							got = nil
+							for i := 0; i < args[0].ln; i++ {
+								got = append(got, it.mem[fmt.Sprintf("%s[%d]", args[0].s, args[0].off+i)].f)
+							}
+							if args[1].kind == 2 {
+								gotCT = args[1].f
+							}
+						}
+					}
+					if _, err := it.call(f, []k4val{{kind: 3, s: "$0"}, {kind: 3, s: "$1"}}, nil); err != nil {
+						undec = fmt.Sprintf("type %d closed=%v: %v %s", ct, closed, err, trunc(missingList(m)))
+						break
+					}
+					if fmt.Sprint(got) != fmt.Sprint(want) || int(gotCT) != ct {
+						problem = fmt.Sprintf("coordinates type %d, %s sequence: the transformed floats are %v (type %v); expected %v (type %d): fn applied to X,Y of each point (+100, +200 here), every point's own Z/M kept", ct, map[bool]string{true: "closed", false: "open"}[closed], got, gotCT, want, ct)
+						break
+					}
+				}
+			}
+			reportK4(c, f, "per-point transform", undec, problem, fmt.Sprintf("(fn(x,y), z, m) for every point, closing vertex included (%d models)", models))
+		},
+	})
+}
+
+// ---------------------------------------------------------------------------
+// C10.canonstart
+// ---------------------------------------------------------------------------
+
+func init() {
+	register(&Rule{
+		ID:    "C10.canonstart",
+		Props: []string{"C10", "C01"},
+		Doc:   "an extracted ring starts at its canonical (smallest) edge whatever half-edge the face walk began with: rotateSeqs is interpreted on lists of 3 and 4 elements for every rotation amount to learn what it does, the amount extractPolygonRing passes is evaluated for every position minI of the smallest element, and the composition must bring element minI to the front — `rotateSeqs(seqs, minI)` with a rotate-right routine leaves the start of the ring wherever Go's randomised map iteration happened to begin, so equal inputs give results that differ from run to run",
+		Floor: 1,
+		Run: func(c *Ctx) {
+			rot := c.P.Func("geom.rotateSeqs")
+			ext := c.P.Func("geom.extractPolygonRing")
+			if rot == nil || ext == nil {
+				c.Errorf("anchors geom.rotateSeqs / geom.extractPolygonRing do not resolve")
+				return
+			}
+			inl := func(g *ssa.Function) bool { return FuncName(g) == "geom.reverseSeqs" }
+			// perm[n][r][i] = the original index of the element found at position i after rotateSeqs(seqs, r)
+			perm := map[int]map[int][]int{}
+			undec := ""
+			for n := 3; n <= 4 && undec == ""; n++ {
+				perm[n] = map[int][]int{}
+				for r := 0; r <= n; r++ {
+					m := &Model{Num: map[string]float64{}, Bool: map[string]bool{}, Missing: map[string]bool{}}
+					it := &k4interp{p: c.P, m: m, mem: map[string]k4val{}, inline: inl}
+					for i := 0; i < n; i++ {
+						it.mem[fmt.Sprintf("SEQ[%d]", i)] = k4val{kind: 2, f: float64(i)}
+					}
+					if _, err := it.call(rot, []k4val{{kind: 8, s: "SEQ", ln: n, cp: n}, {kind: 2, f: float64(r)}}, nil); err != nil {
+						undec = fmt.Sprintf("rotateSeqs(n=%d, %d): %v %s", n, r, err, trunc(missingList(m)))
+						break
+					}
+					var p []int
+					for i := 0; i < n; i++ {
+						p = append(p, int(it.mem[fmt.Sprintf("SEQ[%d]", i)].f))
+					}
+					perm[n][r] = p
+				}
+			}
+			if undec != "" {
+				c.Undecided(rot.Pos(), FuncName(rot), "rotation routine", "cannot interpret: "+undec)
+				return
+			}
+			// the amount passed by extractPolygonRing (or a helper split off it)
+			var call ssa.CallInstruction
+			for _, g := range withNewHelpers(ext) {
+				for _, ci := range callsTo(g, "geom.rotateSeqs") {
+					call = ci
+				}
+			}
+			if call == nil {
+				c.Bad(ext.Pos(), FuncName(ext), "canonical start of an extracted ring", "extractPolygonRing no longer rotates the ring's edges with rotateSeqs: the ring starts wherever the face walk began")
+				return
+			}
+			var eval func(v ssa.Value, n, minI int, d int) (int, bool)
+			eval = func(v ssa.Value, n, minI int, d int) (int, bool) {
+				v = stripConv(v)
+				if d > 6 {
+					return 0, false
+				}
+				if k, ok := constInt(v); ok {
+					return int(k), true
+				}
+				if _, ok := lenOf(v); ok {
+					return n, true
+				}
+				if bo, ok := v.(*ssa.BinOp); ok {
+					a, ok1 := eval(bo.X, n, minI, d+1)
+					b, ok2 := eval(bo.Y, n, minI, d+1)
+					if !ok1 || !ok2 {
+						return 0, false
+					}
+					switch bo.Op {
+					case token.ADD:
+						return a + b, true
+					case token.SUB:
+						return a - b, true
+					case token.REM:
+						if b != 0 {
+							return a % b, true
+						}
+					}
+					return 0, false
+				}
+				// any other integer value in the amount is the position of the smallest element
+				return minI, true
+			}
+			problem := ""
+			for n := 3; n <= 4 && problem == ""; n++ {
+				for minI := 0; minI < n; minI++ {
+					r, ok := eval(call.Common().Args[1], n, minI, 0)
+					if !ok || r < 0 || r > n {
+						problem = fmt.Sprintf("the rotation amount cannot be evaluated (or is out of range) for %d edges with the smallest at position %d", n, minI)
+						break
+					}
+					if perm[n][r][0] != minI {
+						problem = fmt.Sprintf("with %d edges and the smallest one at position %d the amount passed is %d, after which the ring starts with the edge that was at position %d (rotateSeqs gives %v): the start of the ring depends on where the face walk began", n, minI, r, perm[n][r][0], perm[n][r])
+						break
+					}
+				}
+			}
+			c.Check(problem == "", call.Pos(), FuncName(ext), "canonical start of an extracted ring", "rotateSeqs with the amount passed brings the smallest edge to the front (3 and 4 edges, every position)", problem)
 		},
 	})
 }
